@@ -3877,6 +3877,16 @@ coap_handle_response_get_block(coap_context_t *context,
           rcvd->code = COAP_RESPONSE_CODE(402);
           goto expire_lg_crcv;
         }
+        if (block.m && block.num >= 0xFFFFF && block_opt == COAP_OPTION_BLOCK2) {
+          /*
+           * NUM has 20 bits (RFC7959 2.2): no block can follow this one, the
+           * request for the next block could not be encoded.
+           */
+          coap_log_warn("block: More set on the last block number %u\n",
+                        block.num);
+          rcvd->code = COAP_RESPONSE_CODE(402);
+          goto expire_lg_crcv;
+        }
         /* Possibility that Size2 not sent, or is too small */
         chunk = (size_t)1 << (block.szx + 4);
         offset = block.num * chunk;
